@@ -135,10 +135,7 @@ struct Scenario {
     /// go to <data>/authority/authority.log), followed by GET /config/doctor on the authority it spawned
     #[serde(default)]
     cli: bool,
-    /// the merged configuration does not fit the typed schema (`serde_json::from_value::<RipConfig>` fails and
-    /// the code falls back to the default configuration); the string is the scalar serde's type error quotes
-    /// ("" when the message quotes nothing).  By construction of the scenario; checked against the doctor output
-    /// through the model (Model/SecretFlow.v `w_misfit`)
+    /// (unused since the model has the JSON stage: whether the merged document fits the schema is decided by the model)
     #[serde(default)]
     misfit: Option<String>,
     /// after the run: POST /tasks {tool: bash, args: {command: "env"}} in this execution mode ("pipes" / "pty") and read
@@ -937,6 +934,8 @@ struct RunOut {
     prov: String,
     dead: String,
     authority: String,
+    /// the canaries of this run (key core, header core, numeric)
+    canaries: [String; 3],
 }
 
 fn walk(dir: &Path, base: &Path, out: &mut Vec<(String, Vec<u8>)>) {
@@ -1117,6 +1116,7 @@ fn run_once(sc: &Scenario, key: &str, hdr: &str, num: &str) -> RunOut {
         stdout: child_stdout,
         stderr: child_stderr,
         authority: obs_authority,
+        canaries: [key.to_string(), hdr.to_string(), num.to_string()],
         exit_ok: out.status.success(),
         root: root.display().to_string(),
         prov,
@@ -1436,22 +1436,86 @@ fn coq_ostr(s: &Option<String>) -> String {
 fn coq_obool(b: &Option<bool>) -> String {
     coq_opt(b, |x| coq_bool(*x).to_string())
 }
-fn coq_case(c: &Scenario, obs: &[u64]) -> String {
-    // a mis-shaped position that survives the merge makes the whole typed configuration default (w_misfit); one that
-    // a higher layer replaced is simply absent from the typed view
-    let mut layers: Vec<Layer> = c.layers.iter().map(repaired_view).collect();
+/// a configuration file as the model's `doc`: the typed fields, and the secret-bearing positions WITH THEIR SHAPES
+fn coq_doc(l: &Layer, m: &[(&str, &str)]) -> String {
+    let hstr = |v: &str| format!("HStr {}", coq_str(v));
+    // the canary placeholders of the wrong-shape templates
+    let tpl = |t: &str| coq_str(&subst(t, m));
+    let mut provs: Vec<(String, String)> = vec![];
+    for p in &l.providers {
+        let key = match &p.api_key {
+            None => "None".to_string(),
+            Some(KeySpec::Inline(v)) => format!("(Some (KV (KInline {})))", coq_str(v)),
+            Some(KeySpec::Env(n)) => format!("(Some (KV (KEnvRef {})))", coq_str(n)),
+        };
+        let mut hs: Vec<(String, String)> = p.headers.iter().map(|(k, v)| (k.clone(), hstr(v))).collect();
+        hs.sort();
+        hs.dedup_by(|a, b| a.0 == b.0);
+        let headers = if hs.is_empty() { "None".to_string() } else { format!("(Some (HMap {}))", coq_list(&hs, |(k, v)| format!("({}, {})", coq_str(k), v))) };
+        provs.push((p.id.clone(), format!("PObj {} {} {}", coq_ostr(&p.endpoint), key, headers)));
+    }
+    provs.sort();
+    let mut whole: Option<String> = None;
+    let mut ps_override: Option<String> = None;
+    if let Some(v) = l.misfit {
+        // mirrors `apply_misfit` (which works on the first provider in key order)
+        let ep = provs.first().map(|_| l.providers.iter().min_by(|a, b| a.id.cmp(&b.id)).unwrap().endpoint.clone()).unwrap_or(None);
+        let first = l.providers.iter().min_by(|a, b| a.id.cmp(&b.id)).cloned().unwrap_or_else(|| ProvSpec { id: "acme".into(), ..Default::default() });
+        let key = match &first.api_key {
+            None => "None".to_string(),
+            Some(KeySpec::Inline(v)) => format!("(Some (KV (KInline {})))", coq_str(v)),
+            Some(KeySpec::Env(n)) => format!("(Some (KV (KEnvRef {})))", coq_str(n)),
+        };
+        let mut hs: Vec<(String, String)> = first.headers.iter().map(|(k, v)| (k.clone(), hstr(v))).collect();
+        hs.sort();
+        let hmap = |hs: &Vec<(String, String)>| format!("(Some (HMap {}))", coq_list(hs, |(k, v)| format!("({}, {})", coq_str(k), v)));
+        let orig_headers = if hs.is_empty() { "None".to_string() } else { hmap(&hs) };
+        let referer = ("HTTP-Referer".to_string(), hstr("https://example.com/app"));
+        let pobj = |key: &str, headers: &str| format!("PObj {} {} {}", coq_ostr(&first.endpoint), key, headers);
+        let newp: Option<String> = match v {
+            0 => Some(pobj(&key, &format!("(Some (HScalar {}))", tpl("X-Api-Key: tok {{H}}")))),
+            1 => Some(pobj(&key, &hmap(&vec![referer.clone(), ("X-Tenant-Token".into(), format!("HBadScalar {}", tpl("{{N}}")))]))),
+            3 => Some(format!("PScalar {}", tpl("{{K}}"))),
+            5 | 11 => Some(pobj("(Some KBad)", &orig_headers)),
+            6 => Some(pobj("(Some KBadObj)", &orig_headers)),
+            7 => Some(pobj(&key, &hmap(&vec![referer.clone(), ("X-Api-Key".into(), "HBad".to_string())]))),
+            9 => Some(pobj(&key, "(Some HShape)")),
+            10 => Some(pobj(&key, &hmap(&vec![("X-Tenant-Token".into(), format!("HBadScalar {}", tpl("-{{N}}")))]))),
+            _ => None,
+        };
+        if let Some(np) = newp {
+            if provs.is_empty() {
+                provs.push((first.id.clone(), np));
+            } else {
+                provs[0].1 = np;
+            }
+        }
+        match v {
+            2 => ps_override = Some(format!("(Some (PsScalar {}))", tpl("{{K}}"))),
+            4 => {
+                let epv = match &ep {
+                    Some(e) => format!("PScalar {}", coq_str(e)),
+                    None => "PBad".to_string(),
+                };
+                ps_override = Some(format!("(Some (PMap [({}, PScalar {}); ({}, {})]))", coq_str("api_key"), tpl("{{K}}"), coq_str("endpoint"), epv));
+            }
+            8 => whole = Some(format!("DScalar {}", tpl("{{K}}"))),
+            _ => {}
+        }
+    }
+    if let Some(w) = whole {
+        return w;
+    }
+    let ps = ps_override.unwrap_or_else(|| if provs.is_empty() { "None".to_string() } else { format!("(Some (PMap {}))", coq_list(&provs, |(k, v)| format!("({}, {})", coq_str(k), v))) });
+    format!("DObj {} {} {} {} {} {}", ps, coq_ostr(&l.model), coq_ostr(&l.primary), coq_obool(&l.stateless), coq_obool(&l.parallel), coq_ostr(&l.followup))
+}
+
+fn coq_case(c: &Scenario, obs: &[u64], m: &[(&str, &str)]) -> String {
+    // the files as the code sees them, lowest precedence first; the model merges them as JSON (non-objects replace) and
+    // decides itself whether the merged document fits the typed schema
+    let mut layers: Vec<Layer> = c.layers.clone();
     layers.sort_by_key(|l| l.slot);
-    let ls = coq_list(&layers, |l| {
-        let ps = coq_list(&l.providers, |p| {
-            let key = match &p.api_key {
-                None => "None".to_string(),
-                Some(KeySpec::Inline(v)) => format!("(Some (KInline {}))", coq_str(v)),
-                Some(KeySpec::Env(n)) => format!("(Some (KEnvRef {}))", coq_str(n)),
-            };
-            format!("({}, mkPatch {} {} {})", coq_str(&p.id), coq_ostr(&p.endpoint), key, coq_list(&p.headers, |(k, v)| format!("({}, {})", coq_str(k), coq_str(v))))
-        });
-        format!("mkLayer {} {} {} {} {} {}", ps, coq_ostr(&l.model), coq_ostr(&l.primary), coq_obool(&l.stateless), coq_obool(&l.parallel), coq_ostr(&l.followup))
-    });
+    let ls = coq_list(&layers, |l| coq_doc(l, m));
     let env = coq_list(&c.env, |(k, v)| format!("({}, {})", coq_str(k), coq_str(v)));
     let ovr = match &c.ovr {
         None => "mkOvr None None None None None".to_string(),
@@ -1459,7 +1523,7 @@ fn coq_case(c: &Scenario, obs: &[u64]) -> String {
     };
     let outcome = if c.doctor_only { 99 } else { c.outcome as u64 };
     let cli = c.cli_flags.as_ref().map(|f| f.coq()).unwrap_or_else(|| "None".into());
-    format!("mkCase (mkWorld {} {} ({}) {}) {} {} {} {}", ls, env, ovr, coq_ostr(&c.misfit), cli, coq_bool(c.thread), outcome, coq_list_n(obs))
+    format!("mkCase (world_of (mkJWorld {} {} ({}))) {} {} {} {}", ls, env, ovr, cli, coq_bool(c.thread), outcome, coq_list_n(obs))
 }
 
 // ------------------------------------------------------------------ independent doctor oracle
@@ -1709,24 +1773,6 @@ fn gen_scenario(rng: &mut Rng, i: u64) -> Scenario {
     sc
 }
 
-/// what the typed schema sees of a layer whose mis-shaped position was REPLACED by a higher layer (merge_json_value:
-/// a non-object on either side is replaced wholesale): the layer without that position
-fn repaired_view(l: &Layer) -> Layer {
-    let mut m = l.clone();
-    let Some(v) = m.misfit.take() else { return m };
-    match v {
-        0 | 9 | 10 => m.providers[0].headers.clear(),
-        1 | 7 => m.providers[0].headers = vec![("HTTP-Referer".into(), "https://example.com/app".into())],
-        5 | 6 | 11 => m.providers[0].api_key = None,
-        2 | 3 => m.providers.clear(),
-        _ => {
-            // 8: the whole document was a string
-            m = Layer { slot: l.slot, ..Default::default() };
-        }
-    }
-    m
-}
-
 /// Wrong-shape grid: variant x config slot x diagnostic surface (in-process router, real `ripd` process, `rip config
 /// doctor`).  The file is valid JSON(C) that does not fit the schema, the canary is the offending scalar, and it
 /// also holds well-typed secrets next to it.  Quick: every (variant, slot) once with the surface rotating (every
@@ -1759,12 +1805,20 @@ fn gen_misfit(rng: &mut Rng, j: u64, full: bool) -> Scenario {
     let bad = Layer { slot, providers: vec![prov.clone()], model: Some(format!("{pid}/fixture-model")), misfit: Some(variant), stateless: Some(true), ..Default::default() };
     // a higher layer that REPLACES the mis-shaped position: the merged document fits again (variant 4 cannot be repaired)
     let repair = slot < 6 && variant != 4 && rng.chance(1, 4);
-    // a well-formed lower layer is merged first and dropped together with everything else (not with a repair: the
-    // replaced position also loses what lower layers put there)
-    if !repair && slot > 0 && rng.chance(1, 3) {
+    // a well-formed lower layer is merged first: dropped together with everything else when the document misfits; when a
+    // higher layer repairs the position, whatever the lower layer put AT that position is gone too (a non-object on
+    // either side replaces), the rest of it stays.  Its key is inline or an env reference: `{"env": N}` below an
+    // `api_key` OBJECT without `env` (variant 6) merges into an object that still fits.
+    if slot > 0 && rng.chance(1, 2) {
+        let lower_key = if rng.chance(1, 2) {
+            KeySpec::Inline("lower-{{K}}".into())
+        } else {
+            sc.env.push(("LOWER_KEY".into(), "lowerenv-{{K}}".into()));
+            KeySpec::Env("LOWER_KEY".into())
+        };
         sc.layers.push(Layer {
             slot: rng.below(slot as u64) as u8,
-            providers: vec![ProvSpec { id: pid.into(), endpoint: None, api_key: Some(KeySpec::Inline("lower-{{K}}".into())), headers: vec![("X-Lower".into(), "low {{H}}".into())] }],
+            providers: vec![ProvSpec { id: pid.into(), endpoint: None, api_key: Some(lower_key), headers: vec![("X-Lower".into(), "low {{H}}".into())] }],
             followup: Some("continue please".into()),
             ..Default::default()
         });
@@ -1784,8 +1838,6 @@ fn gen_misfit(rng: &mut Rng, j: u64, full: bool) -> Scenario {
         sc.layers.push(hi);
         sc.secret_unsendable = false;
         sc.channel = format!("wrong-shape-repaired:{}", misfit_info(variant).0);
-    } else {
-        sc.misfit = Some(misfit_info(variant).1.to_string());
     }
     sc.layers.push(bad);
     if rng.chance(1, 2) {
@@ -2265,7 +2317,8 @@ fn main() {
             // the model sees the concrete world of this run (actual provider URL, this run's canary)
             let mut conc = r.sc.clone();
             conc.layers.sort_by_key(|l| l.slot);
-            let id = if args.oracle_only() || sc.oracle_only { -1 } else { cw.push(coq_case(&conc, obs)) as i64 };
+            let map: Vec<(&str, &str)> = vec![("{{K}}", r.canaries[0].as_str()), ("{{H}}", r.canaries[1].as_str()), ("{{N}}", r.canaries[2].as_str())];
+            let id = if args.oracle_only() || sc.oracle_only { -1 } else { cw.push(coq_case(&conc, obs, &map)) as i64 };
             ids.push(id);
             if id >= 0 && res.case_index.len() < 400 {
                 res.case_index.insert(id.to_string(), case_json.clone());
